@@ -276,7 +276,8 @@ def part_sampled_functions(ctx):
         ('random-function-and-variable', dict(user_functions={'f': RandomFunction()}, variables=['x']), 'f(x) + f(0)', ['f(x) + f(0)', 'f(0) + f(x)'], ['f(x)']),
         ('numbered-only', dict(numbered_vars=['a'], sample_from={'a': RealInterval([1, 5])}), 'a_{1} + 2*a_{2}', ['a_{1} + 2*a_{2}', 'a_{2} + a_{1} + a_{2}'], ['a_{1} + a_{2}']),
         ('dependent-only', dict(variables=['x', 'y'], sample_from={'x': RealInterval([1, 5]), 'y': DependentSampler(depends=['x'], formula='x^2')}), 'y + 1', ['y + 1', 'x^2 + 1', '1 + x*x'], ['y', 'x + 1']),
-        ('vector-random-function', dict(user_functions={'f': RandomFunction(output_dim=2)}, max_array_dim=1), 'f(0)', ['f(0)', '2*f(0) - f(0)'], ['2*f(0)']),
+        ('vector-random-function', dict(user_functions={'f': RandomFunction(output_dim=2)}, max_array_dim=1), 'f(0)', ['f(0)', '2*f(0) - f(0)'], ['2*f(0)', 'f(1)', 'f(0.5)', 'f(0 + 2)']),
+        ('vector-random-function-of-variable', dict(user_functions={'r': RandomFunction(output_dim=3)}, variables=['t'], max_array_dim=1), 'r(t)', ['r(t)', 'r(t + 0)', 'r(2*t - t)'], ['r(t + 1)', 'r(2*t)', 'r(t) + r(t + 1) - r(t)']),
     ]
     for it in range(ctx.scale(32, 320)):
         name, kw, ans, same, different = setups[it % len(setups)]
